@@ -328,6 +328,7 @@ func (m *Model) Run(hist []string) *proto.Result {
 	diffs, obs := w.CheckLedger()
 	res.Viol = append(res.Viol, diffs...)
 	if m.O.Tasks {
+		res.Viol = append(res.Viol, w.CheckTasksDone()...)
 		res.Viol = append(res.Viol, w.CheckRemoved()...)
 		res.Viol = append(res.Viol, w.CheckAddressList()...)
 	}
